@@ -855,7 +855,7 @@ def gen_f64_seq(rng):
     import math
 
     tol = filters.TOLERANCE
-    mode = rng.choice(["tenths", "tenths", "hundredths", "accumulated", "ulp", "large", "tiny", "mixed"])
+    mode = rng.choice(["tenths", "tenths", "hundredths", "accumulated", "ulp", "large", "large", "tiny", "mixed"])
     n = rng.randint(2, 12)
     if mode in ("tenths", "hundredths", "mixed"):
         p = 10 if mode == "tenths" else 100
@@ -883,12 +883,14 @@ def gen_f64_seq(rng):
                 b = math.nextafter(b, rng.choice([-math.inf, math.inf]))
             vals.append(b if rng.random() < 0.8 else a)
     elif mode == "large":
-        a = rng.choice([1e8, 99999999.0, 100000001.0, 2e8, 1e9, 1e10, 123456789.5, 2.0 ** 53, 1e15])
+        a = rng.choice([1e6, 1e7, 1e8, 99999999.0, 100000001.0, 2e8, 200000000.0, 1e9, 1e10, 123456789.5, 2.0 ** 40, 1e12, 2.0 ** 49, 2.0 ** 52, 2.0 ** 53, 1e15,
+                        1e17, 2.0 ** 80, 1e22, 1e100, 2.0 ** 1000]) * rng.choice([1, 1, -1])
         vals = [a]
         for _ in range(n - 1):
             r = 1e-9 * abs(vals[-1])
-            b = vals[-1] + rng.choice([1, -1]) * rng.choice([0.05, 0.1, 0.15, r, r * 0.99, r * 1.01, 1.0, 2.0, 0.0])
-            vals.append(b)
+            u = math.ulp(vals[-1])
+            b = vals[-1] + rng.choice([1, -1]) * rng.choice([0.05, 0.1, 0.15, 0.15, 0.2, r, r * 0.99, r * 1.01, r / 2, 1.0, 2.0, 0.0, u, 2 * u, 3 * u])
+            vals.append(b if rng.random() < 0.85 else rng.choice(vals))
     else:
         a = rng.choice([1e-12, -1e-12, 5e-324, 1e-300, 0.0, -0.0])
         vals = [a]
@@ -902,11 +904,25 @@ def gen_f64_seq(rng):
     return mode, out
 
 
-def f64_section(res, rng, tier, only=None):
+def parse_f64_line(ln):
+    """corpus line `f64 <filter> <value>*`: a value is a float literal (decimal or float.hex) or, with a trailing `i`, a Python int"""
+    w = ln.split()
+    vals = []
+    for t in w[2:]:
+        if t.endswith("i"):
+            vals.append(int(t[:-1]))
+        elif t.lstrip("-").startswith("0x"):
+            vals.append(float.fromhex(t))
+        else:
+            vals.append(float(t))
+    return (w[1], "corpus", vals)
+
+
+def f64_section(res, rng, tier, only=None, extra=()):
     """on_change / debounce / delta over sequences of arbitrary finite doubles: implementation vs the exact binary64 model
-    (`c20f`: math.isclose as CPython computes it, rounded subtraction), and vs the statement read on the exact values
-    ("differs by MORE than the tolerance") wherever that reading is the comparison the code computes: both magnitudes below
-    10^6 and the float subtraction of the two values exact."""
+    (`c20f`: math.isclose as CPython computes it with the tolerances the translator read from filters.py, rounded subtraction),
+    and vs the STATEMENT read on the exact values ("differs by MORE than the tolerance") wherever the float subtraction of the two
+    compared values is exact — at every magnitude (theorem C20F.changed_is_differs_of_exact)."""
     import asyncio
     from fractions import Fraction
 
@@ -915,6 +931,7 @@ def f64_section(res, rng, tier, only=None):
     if only is not None:
         cases = [only]
     else:
+        cases.extend(extra)
         for _ in range(1500 if tier == "quick" else 40000):
             mode, vals = gen_f64_seq(rng)
             flt = rng.choice(["oc", "oc", "db:1", "db:2", "db:3", "de"])
@@ -961,41 +978,201 @@ def f64_section(res, rng, tier, only=None):
         res.case(("f64", flt, tuple(inp["values"])), nontrivial)
         res.count("binary64 numbers: " + mode)
         res.count("binary64 filter: " + flt.split(":")[0])
-        # the statement on the exact values, where that IS the code's comparison
+        # the statement on the exact values, wherever the float subtraction of the two compared values is exact (any magnitude)
         in_region = True
-        if flt.split(":")[0] in ("oc", "db"):
-            n = int(flt.split(":")[1]) if ":" in flt else None
-            last, streak, want = None, 0, []
-            for v in vals:
-                if last is None:
-                    want.append("d" + str(Fraction(v)))
-                    last = v
-                    continue
-                exact = Fraction(v) - Fraction(last)
-                if abs(v) >= 10 ** 6 or abs(last) >= 10 ** 6 or Fraction(float(v) - float(last)) != exact:
-                    in_region = False
-                    break
-                differs = abs(exact) > tol
-                if n is None:
-                    deliver = differs
-                else:
-                    streak = streak + 1 if differs else 0
-                    deliver = streak >= n
-                if deliver:
-                    want.append("d" + str(Fraction(v)))
-                    last, streak = v, 0
-                else:
-                    want.append("-")
-            if in_region:
-                res.count("binary64: judged by the statement on the exact values")
-                if obs != want:
-                    res.fail("spec", inp, want, obs, f"{flt}: over these doubles (exact differences, magnitudes below 10^6) a value is a change iff it "
-                             "differs from the last delivered one by MORE than the tolerance")
-                    continue
+        kind = flt.split(":")[0]
+        n = int(flt.split(":")[1]) if ":" in flt else None
+        last, streak, want = None, 0, []
+        for v in vals:
+            if last is None:
+                want.append("-" if kind == "de" else "d" + str(Fraction(v)))
+                last = v
+                continue
+            exact = Fraction(v) - Fraction(last)
+            try:
+                fdiff = Fraction(float(v) - float(last))
+            except (OverflowError, ValueError):
+                fdiff = None
+            if fdiff != exact:
+                in_region = False
+                break
+            differs = abs(exact) > tol
+            if kind == "db":
+                streak = streak + 1 if differs else 0
+                deliver = streak >= n
             else:
-                res.count("binary64: outside the exact reading (the subtraction rounds, or |x| >= 10^6): model only")
+                deliver = differs
+            if deliver:
+                want.append("d" + str(exact if kind == "de" else Fraction(v)))
+                last, streak = v, 0
+            else:
+                want.append("-")
+        big = any(abs(v) >= 10 ** 6 for v in vals)
+        if in_region:
+            res.count("binary64: judged by the statement on the exact values" + (" (|x| >= 10^6)" if big else ""))
+            if obs != want:
+                res.fail("spec", inp, want, obs, f"{flt}: over these doubles (every compared pair has an exact float difference) a value is a change iff it "
+                         "differs from the last delivered one (delta: the reference) by MORE than the tolerance")
+                continue
+        else:
+            res.count("binary64: outside the exact reading (a float subtraction rounds): model only")
         if obs != mod:
             res.fail("corr", inp, mod, obs, "exact binary64 model of math.isclose / the float difference and filters.py differ")
+
+
+# ---------------------------------------------------------------- a live Parameter changed through its own API between deliveries
+def gen_setapi(rng):
+    """`setapi <filter> <op>*`: ONE real Number parameter on a stub device (a queue), filtered; ops:
+    R<v>,<min>,<max>  the controller reports the parameter: Parameter.update(values), then the filter is called with the object
+                      (what create_or_update + dispatch do);
+    S<v>[/<retries>]  the client calls Parameter.set(v) (the REAL coroutine, run as a task up to its first sleep: the value is written
+                      into the live ParameterValues, pending_update is set, a request goes to the stub queue); no filter call;
+    W                 one time-out period passes (set() retries / gives up);   D  the same object is dispatched again."""
+    flt = rng.choice(["oc", "oc", "db:1", "db:2", "db:3", "cu:always", "db:0"])
+    v = rng.choice([50, 1, 0, 99])
+    mn, mx = 0, 100
+    ops = [f"R{v},{mn},{mx}"]
+    for _ in range(rng.randint(2, 9)):
+        u = rng.random()
+        if u < 0.35:
+            nv = rng.choice([v + 10, v + 1, v - 1, v, 60, 55, 0, 100, 101])
+            ops.append(f"S{nv}" + rng.choice(["", "", "/1", "/2"]))
+            if rng.random() < 0.75:
+                # the confirming report (sometimes a stale one first, sometimes moved bounds)
+                if rng.random() < 0.25:
+                    ops.append(f"R{v},{mn},{mx}")
+                if rng.random() < 0.15:
+                    mx = rng.choice([100, 120, 80])
+                if mn <= nv <= mx:
+                    v = nv
+                ops.append(f"R{v},{mn},{mx}")
+        elif u < 0.7:
+            if rng.random() < 0.4:
+                v = max(mn, min(mx, v + rng.choice([-5, 5, 1, -1, 10])))
+            ops.append(f"R{v},{mn},{mx}")
+        elif u < 0.85:
+            ops.append("W")
+        else:
+            ops.append("D")
+    return flt, ops
+
+
+def setapi_section(res, rng, tier, only=None, extra=()):
+    """a Parameter passed through on_change / debounce / custom while the client changes it with Parameter.set() between the
+    controller's reports: what reaches the callback vs the filter machine run on the parameter states OBSERVED at each call (the model
+    sees a Parameter value as the record (value, min, max, pending) at call time), and the judge C20.spec on the same."""
+    import asyncio
+    import logging
+
+    class StubDevice:
+        address = 0x45
+
+        def __init__(self):
+            self.queue = asyncio.Queue()
+
+    class SParam(Number):
+        async def create_request(self):
+            return ("set", self.values.value)
+
+        async def create_refresh_request(self):
+            return ("refresh",)
+
+    def enc(p):
+        return f"p{p.values.value},{p.values.min_value},{p.values.max_value},{1 if p.pending_update else 0}"
+
+    cases = [only] if only is not None else list(extra) + [gen_setapi(rng) for _ in range(400 if tier == "quick" else 8000)]
+
+    async def drive(flt, ops):
+        dev = StubDevice()
+        box = dict(p=None, cur=None)
+        calls, got, raised, notes, tasks = [], {}, {}, [], []
+
+        async def cb(v):
+            got.setdefault(box["cur"], []).append(enc(v) if isinstance(v, SParam) else "?" + repr(v)[:30])
+            if v is not box["p"]:
+                notes.append(f"call {box['cur']}: the delivered object is not the object the filter was called with")
+
+        f = make_filter(flt, cb)
+
+        async def call():
+            i = len(calls)
+            calls.append(enc(box["p"]))
+            box["cur"] = i
+            try:
+                await f(box["p"])
+            except Exception as e:  # noqa: BLE001
+                raised[i] = type(e).__name__
+
+        for op in ops:
+            if op[0] == "R":
+                vals = ParameterValues(*(int(x) for x in op[1:].split(",")))
+                if box["p"] is None:
+                    box["p"] = SParam(dev, NumberDescription("x"), vals)
+                else:
+                    box["p"].update(vals)
+                await call()
+            elif op[0] == "S" and box["p"] is not None:
+                val, _, r = op[1:].partition("/")
+                t = asyncio.get_running_loop().create_task(box["p"].set(int(val), retries=int(r or 5), timeout=1.0))
+                t.add_done_callback(lambda t_: t_.cancelled() or t_.exception())
+                tasks.append(t)
+                for _ in range(4):
+                    await asyncio.sleep(0)
+            elif op[0] == "W":
+                await asyncio.sleep(1.0)
+            elif op[0] == "D" and box["p"] is not None:
+                await call()
+        for t in tasks:
+            t.cancel()
+        await asyncio.gather(*tasks, return_exceptions=True)
+        return calls, got, raised, notes
+
+    logging.disable(logging.CRITICAL)
+    try:
+        async def all_impl():
+            return [await drive(flt, ops) for flt, ops in cases]
+
+        impl = vloop.run(all_impl())
+    finally:
+        logging.disable(logging.NOTSET)
+    lines, judges = [], []
+    rows = []
+    for (flt, ops), (calls, got, raised, notes) in zip(cases, impl):
+        cl = [(i * TICK, c, False) for i, c in enumerate(calls)]
+        row = []
+        for i in range(len(calls)):
+            if i in raised:
+                row.append("!" + raised[i])
+            elif i not in got:
+                row.append("-")
+            elif len(got[i]) > 1:
+                row.append("dd")
+            else:
+                row.append("d" + got[i][0])
+        rows.append(row)
+        lines.append(lean_line(flt, 0, cl))
+        judges.append("c20judge-unparsable" if any(o.startswith(("!", "d?", "dd")) for o in row) else
+                      " ".join(["c20judge", lean_filter(flt, 0)] + [f"{t}@{v}" for t, v, _ in cl] + ["|"] + row))
+    answers = driver_batch(lines)
+    verdicts = driver_batch(judges)
+    for (flt, ops), (calls, got, raised, notes), row, ans, verdict in zip(cases, impl, rows, answers, verdicts):
+        text = " ".join(["setapi", flt] + list(ops))
+        inp = dict(case=text, label="setapi", parameter_states_at_the_calls=calls)
+        model = ans.split(";") if ans != "." else []
+        res.case(text, len(calls) >= 2 and "-" in row and any(o.startswith("d") for o in row))
+        res.count("Parameter.set() between deliveries: " + flt.split(":")[0])
+        if any(o[0] == "S" for o in ops):
+            k = next(i for i, o in enumerate(ops) if o[0] == "S")
+            if any(o[0] in "RD" for o in ops[k + 1:]):
+                res.count("Parameter.set() between deliveries: histories with a set() followed by a report / dispatch")
+        if notes:
+            res.fail("spec", inp, "the delivered object is the object passed in", notes, "delivered values are passed on unmodified")
+        if verdict != "pass":
+            res.fail("spec", inp, dict(model=model), dict(outcomes=row, judge=verdict),
+                     "C20.spec fails on what the implementation delivered for a Parameter changed by Parameter.set() between the calls "
+                     "(the values that differ from the last delivered one are the ones the callback must see)")
+        elif row != model:
+            res.fail("corr", inp, model, row, "filter machine and filters.py differ on a Parameter changed by Parameter.set() between the calls")
 
 
 def eq_probe(res):
@@ -1075,7 +1252,7 @@ def run(ctx):
                 "and a non-delivery (or a raise)")
     cases = []
     for fn, ln in load_corpus("C20"):
-        if not ln.startswith("instances "):
+        if not ln.startswith(("instances ", "f64 ", "setapi ")):
             cases.append((parse_case(ln), "corpus"))
     cases.extend(gen_cases(rng, ctx["tier"]))
     if ctx.get("max_cases"):
@@ -1087,15 +1264,19 @@ def run(ctx):
         check_instances(res, inst_cases)
     boundary_probe(res)
     if not ctx.get("max_cases"):
-        f64_section(res, rng, ctx["tier"])
+        f64_section(res, rng, ctx["tier"], extra=[parse_f64_line(ln) for _, ln in load_corpus("C20") if ln.startswith("f64 ")])
         eq_probe(res)
+        setapi_section(res, rng, ctx["tier"], extra=[(ln.split()[1], ln.split()[2:]) for _, ln in load_corpus("C20") if ln.startswith("setapi ")])
     res.notes.append("numbers: (a) all filters, chains and value kinds on multiples of 1/16 below 10^6 (every float operation exact: the sums of delta / "
                      "aggregate are exact there); (b) on_change / debounce / delta over ARBITRARY finite doubles (decimal tenths / hundredths, accumulated "
-                     "floats, values exactly the tolerance or one ulp around it apart, magnitudes from 1e-324 to 1e15) against the exact binary64 model of "
-                     "math.isclose and the rounded difference (Model/FiltersF64.lean, theorems Props/C20F64.lean), and against the statement on the exact "
-                     "values wherever the float subtraction is exact and |x| < 10^6.  Excluded: NaN / infinities; ints beyond 2^53; the exact-sum "
-                     "laws of delta / aggregate outside the grid of (a) (float sums round)")
-    res.notes.append("Parameter objects are not mixed with other kinds of value in one sequence")
+                     "floats, values exactly the tolerance or one ulp around it apart, magnitudes from 1e-324 to 2^1000) against the exact binary64 model of "
+                     "math.isclose and the rounded difference (Model/FiltersF64.lean with the rel_tol / abs_tol the translator reads from the call in filters.py, "
+                     "theorems Props/C20F64.lean, C20F64Pin.lean), and against the STATEMENT on the exact values wherever the float subtraction of the two compared "
+                     "values is exact — at every magnitude up to 2^1000 (theorem changed_is_differs_of_exact).  What remains outside the literal reading: pairs whose "
+                     "float difference rounds (an exact difference above 0.1 by less than half an ulp compares as unchanged: C20F.rounding_witness) — those are judged "
+                     "against the model.  Excluded: NaN / infinities; ints beyond 2^53; the exact-sum laws of delta / aggregate outside the grid of (a) (float sums round)")
+    res.notes.append("Parameter objects: (a) HParam objects whose record / pending flag the harness writes directly (modes fresh / shared); (b) section setapi: ONE real Number parameter "
+                     "changed through Parameter.update() (controller report) and the real Parameter.set() coroutine (client) between the filter calls")
     return res
 
 
@@ -1116,6 +1297,10 @@ def replay(ctx):
         return res
     if f["input"]["case"].startswith("instances "):
         check_instances(res, [parse_instances(f["input"]["case"])])
+        return res
+    if f["input"]["case"].startswith("setapi "):
+        w = f["input"]["case"].split()
+        setapi_section(res, random.Random(0), "quick", only=(w[1], w[2:]))
         return res
     check_cases(res, [(parse_case(f["input"]["case"]), f["input"].get("label", "replay"))], random.Random(0))
     return res
